@@ -83,6 +83,11 @@ func (c PBCodec) Encode(i interface{}) ([]byte, error) {
 // Decode decodes an object from slice of bytes.
 func (c PBCodec) Decode(data []byte, i interface{}) error {
 	if m, ok := i.(proto.Unmarshaler); ok {
+		// a generated Unmarshal merges into the message: start from an empty one, as
+		// proto.Unmarshal does, so that fields absent from data do not keep old values
+		if r, ok := i.(interface{ Reset() }); ok {
+			r.Reset()
+		}
 		return m.Unmarshal(data)
 	}
 
